@@ -187,6 +187,7 @@ TamperIds == {"none", "strip", "nosig", "junk",
               "otherkey",          \* signed by another key, addresses untouched
               "otherkey_raddr",    \* ... and that key named as the recipient: a self-consistent proof by somebody else
               "amount", "exc_spart", "exc_rpart", "exc_cb", "sender",   \* signed over other values by the real key
+              "amount_slate",      \* ... over another amount which the reply ALSO carries in its amount field
               "raddr", "saddr",    \* an address replaced, signature untouched
               "saddr_sig"}         \* sender address replaced and the signature made over it
 TamperProof(p, t, amt, rk) ==
@@ -197,6 +198,9 @@ TamperProof(p, t, amt, rk) ==
     [] t = "otherkey"       -> [p EXCEPT !.rs = PSig(ThirdAddr, amt, "final", p.sa)]
     [] t = "otherkey_raddr" -> [p EXCEPT !.ra = ThirdAddr, !.rs = PSig(ThirdAddr, amt, "final", p.sa)]
     [] t = "amount"         -> [p EXCEPT !.rs = PSig(rk, amt + 1, "final", p.sa)]
+    \* a returned slate is compact (amount 0); selection::repopulate_tx overwrites the amount field
+    \* with the context's amount before anything is verified, whatever the reply carries there
+    [] t = "amount_slate"   -> [p EXCEPT !.rs = PSig(rk, amt + 1, "final", p.sa)]
     [] t = "exc_spart"      -> [p EXCEPT !.rs = PSig(rk, amt, "spart", p.sa)]
     [] t = "exc_rpart"      -> [p EXCEPT !.rs = PSig(rk, amt, "rpart", p.sa)]
     [] t = "exc_cb"         -> [p EXCEPT !.rs = PSig(rk, amt, "cb", p.sa)]
